@@ -26,7 +26,8 @@ func c16GenRW(r *verifh.Rng) []verifh.Section {
 	for i := 0; i < nsec; i++ {
 		size := r.Pick(1, 2, 3, 4, 5, 8, r.Range(1, 12))
 		iv := r.Pick(1, 2, 7, 1000, 1000000, 50000000)
-		ignore := r.Intn(2)
+		// the option list: no option, IgnoreCurrentBucket() once, twice
+		iopts := r.Pick(0, 0, 0, 1, 1, 1, 2)
 		t0 := r.Pick(0, 1, iv-1, iv, r.Intn(1000*iv+1))
 		now := t0
 		// one section in six lets the clock step backwards now and then (outside the property: the driver then only
@@ -89,7 +90,11 @@ func c16GenRW(r *verifh.Rng) []verifh.Section {
 			}
 		}
 		ops = append(ops, fmt.Sprintf("reduce %d", now))
-		secs = append(secs, verifh.Section{Cfg: fmt.Sprintf("s=rw size=%d interval=%d ignore=%d t0=%d", size, iv, ignore, t0), Ops: ops})
+		if i < 2 {
+			// NewRollingWindow(size < 1) panics: no window exists (outside the property, like NewRing(0))
+			secs = append(secs, verifh.Section{Cfg: fmt.Sprintf("s=rw size=%d interval=%d iopts=%d t0=%d", -2*i, iv, iopts, t0), Ops: ops[:3]})
+		}
+		secs = append(secs, verifh.Section{Cfg: fmt.Sprintf("s=rw size=%d interval=%d iopts=%d t0=%d", size, iv, iopts, t0), Ops: ops})
 	}
 	return secs
 }
@@ -99,22 +104,28 @@ func c16StartRW(cfg verifh.Cfg) (func(op []string) string, func()) {
 	iv := time.Duration(verifh.Atoi64(cfg.Str("interval", "1")))
 	timex.VerifSetNow(time.Duration(verifh.Atoi64(cfg.Str("t0", "0"))))
 	newBucket := func() *c16Bucket { return new(c16Bucket) }
+	// `iopts=` the number of IgnoreCurrentBucket() options handed to the constructor (older traces: `ignore=0/1`)
+	iopts := cfg.Int("iopts", cfg.Int("ignore", 0))
 	var rw *RollingWindow[int64, *c16Bucket]
-	if cfg.Int("ignore", 0) == 1 {
-		rw = NewRollingWindow[int64, *c16Bucket](newBucket, size, iv, IgnoreCurrentBucket[int64, *c16Bucket]())
-	} else {
-		rw = NewRollingWindow[int64, *c16Bucket](newBucket, size, iv)
-	}
 	// a second window over the package's own Bucket type (Sum / Count), fed the same additions
 	newReal := func() *Bucket[int64] { return new(Bucket[int64]) }
 	var rwB *RollingWindow[int64, *Bucket[int64]]
-	if cfg.Int("ignore", 0) == 1 {
-		rwB = NewRollingWindow[int64, *Bucket[int64]](newReal, size, iv, IgnoreCurrentBucket[int64, *Bucket[int64]]())
-	} else {
-		rwB = NewRollingWindow[int64, *Bucket[int64]](newReal, size, iv)
-	}
+	func() {
+		defer func() { recover() }() // NewRollingWindow(size < 1) panics
+		var o1 []RollingWindowOption[int64, *c16Bucket]
+		var o2 []RollingWindowOption[int64, *Bucket[int64]]
+		for i := 0; i < iopts; i++ {
+			o1 = append(o1, IgnoreCurrentBucket[int64, *c16Bucket]())
+			o2 = append(o2, IgnoreCurrentBucket[int64, *Bucket[int64]]())
+		}
+		w1 := NewRollingWindow[int64, *c16Bucket](newBucket, size, iv, o1...)
+		w2 := NewRollingWindow[int64, *Bucket[int64]](newReal, size, iv, o2...)
+		rw, rwB = w1, w2
+	}()
 	step := func(op []string) string {
 		switch {
+		case rw == nil || rwB == nil:
+			return "PANIC-new"
 		case len(op) == 3 && op[0] == "add":
 			timex.VerifSetNow(time.Duration(verifh.Atoi64(op[1])))
 			rw.Add(verifh.Atoi64(op[2]))
